@@ -247,10 +247,18 @@ COMBOS = {}
 
 
 def _world(hl):
+    """hl = handler list name, optionally followed by '+noextstrip' (UMN extstrip = none: the only shipped-handler
+    configuration in which an HTML <title> becomes a listing name; with extstrip the file name replaces it)."""
     from harness.world import World
     if hl not in _W:
-        _W[hl] = World(handlers=hl)
+        name, _, opt = hl.partition("+")
+        ov = {("handlers.UMN.UMNDirHandler", "extstrip"): "none"} if opt == "noextstrip" else None
+        _W[hl] = World(handlers=name, overrides=ov)
     return _W[hl]
+
+
+def list_for(src, hl):
+    return hl + "+noextstrip" if src == "htmltitle" else hl
 
 
 def fetch(hl, cb, d, tls):
@@ -346,10 +354,10 @@ def main(chk, replay=None):
                 continue
             o = st["out"]
             for hl in t["lists"]:
-                base = {"cb": st["cb"], "d": st["d"], "twin": o["twin"], "twins": list(o["twins"]), "rawsite": o["rawsite"],
-                        "list": hl, "tls": False}
-                jobs.append(base)
                 c = COMBOS[st["cb"]]
+                base = {"cb": st["cb"], "d": st["d"], "twin": o["twin"], "twins": list(o["twins"]), "rawsite": o["rawsite"],
+                        "list": list_for(c["src"], hl), "tls": False}
+                jobs.append(base)
                 if c["proto"] == "http" and c["src"] in t["tls_srcs"]:
                     jobs.append(dict(base, tls=True))
     finally:
@@ -374,6 +382,14 @@ def main(chk, replay=None):
         chk.violation("%s|%s" % (rj["clause"], case_id(j)), rj["clause"], abstract_case(j),
                       {"event": {k: v for k, v in r["events"][0].items()}, "raw": r["raw"]})
     chk.note_drift(tv["drift"])
+    by_combo = {}
+    for rj in tv["rejected"]:
+        k = "%s %s" % (rj["clause"], jobs[rj["index"]]["cb"])
+        by_combo[k] = by_combo.get(k, 0) + 1
+    drift_by_combo = {}
+    for dr in tv["drift"]:
+        k = "%s: %s" % (jobs[dr["index"]]["cb"], dr["what"])
+        drift_by_combo[k] = drift_by_combo.get(k, 0) + 1
     # measured coverage / vacuity guards
     kinds = {}
     echo_cases = 0
@@ -395,6 +411,7 @@ def main(chk, replay=None):
                                                    echo_cases, kinds),
         "samples": [{"id": tr["id"], "events": tr["events"]} for tr in traces[:1] + traces[len(traces) // 2:len(traces) // 2 + 1]],
         "checker_cmd": res["cmd"] + " ; " + tv["cmd"], "trace_states": tv["states"],
+        "rejections_by_clause_and_combo": by_combo, "drift_by_combo": drift_by_combo,
         "witness_raw_sites_violated": "W_RawSitesInert" in wit["inv_violations"],
         "bindings": ["B2 every done-state of MC_C13 replayed on the real server (data planted at its real source)",
                      "B3 TraceC13 (oracle for structure = implementation on inert data of the same shape)"],
